@@ -21,7 +21,7 @@ EXPLANATION = (
     "(S) every Krylov sibling consumes the col_swapped flag of _setup_linear_problem and undoes the column swap before "
     "returning; (W') the SciPy wrapper tests the returned status and warns; (B) _get_batchdims broadcasts exactly the "
     "documented batch prefixes; (Z) all zero/initial-guess allocations use (*_get_batchdims(A,B,E,M), nr, ncols). "
-    "NOT decided: numerical accuracy of the iterate, agreement between methods, conditioning.")
+    "(F) composed operators call an operand's optional private products only under its capability flag; NOT decided: numerical accuracy of the iterate, agreement between methods, conditioning.")
 ASSUMPTIONS = [
     "the residual expression compared in the loop is the true residual of the returned iterate (numerical, not decided)",
     "torch / numpy / scipy primitives behave as documented",
